@@ -9,7 +9,7 @@ A part is either
               same invariants on them.
 """
 
-DEFAULT_INVARIANTS = ["RetRefines", "InspConsistent", "CursorInBounds", "ResultContract", "FurthestFailure", "NoPanic", "StepBound"]
+DEFAULT_INVARIANTS = ["RetRefines", "InspConsistent", "CursorInBounds", "ResultContract", "FurthestFailure", "FurthestPos", "NoPanic", "StepBound"]
 
 ALL_ETYS = ["rich", "simple", "cheap", "empty"]
 INV_SPANS = DEFAULT_INVARIANTS + ["SpansWellFormed"]
